@@ -179,3 +179,6 @@ P["C06"]["st_any"] = _both(st_kinds({"wallops"}), _fields("user", [2, 9, 10]))
 # and hence `general_serialisable_whole_nostats` (Irc/Props/C18Counters*.lean)
 P["C18"]["extra_modules"] = P["C18"]["extra_modules"] + ["Irc.Props.C18Counters"]
 P["C20"]["st_any"] = _both(_fields("cnt", [5]), _fields("conn", [2]))         # max_connections: slots in use, who is served
+# the ORDER half of C18 on a model of delivery (direct replies, per-connection queues, the drain of the repair 65df214):
+# result_order, sender_receiver_fifo, nothing_lost, old_server_reorders (Irc/Deliver.lean, Irc/Props/C18Order*.lean)
+P["C18"]["extra_modules"] = P["C18"]["extra_modules"] + ["Irc.Props.C18Order"]
